@@ -35,6 +35,8 @@ def sock_scenario(path, typ):
             ops.append(dict(op='bind', s=args[0], addr=args[1], port=0 if args[2] else 5000, _ok=args[3]))
         elif a == 'Connect':
             ops.append(dict(op='connect', s=args[0], addr='10.0.0.9', port=7))
+        elif a == 'BindForeign':
+            ops.append(dict(op='bind', s=args[0], addr='10.0.0.77', port=0 if args[1] else 5000))
         elif a == 'TcpConnect':
             ops.append(dict(op='connect', s=args[0], addr='10.0.0.9', port=7 + args[0]))
         elif a == 'WriteTo':
